@@ -51,6 +51,18 @@ def gen(rng, n):
                 dt = lim + delta
                 info = scen.TI % ('/home/u/' + name, dt.strftime(FMT))
                 dates = [dt.strftime(FMT)]
+            elif r < 0.62:
+                # characters that str.splitlines() takes for line ends but a text file does not: form feed, vertical tab, FS/GS/RS,
+                # NEL, LINE/PARAGRAPH SEPARATOR.  The info file has ONE DeletionDate line, and it is what stands between '=' and '\n'
+                sep = rng.choice(['\x0c', '\x0b', '\x1c', '\x1d', '\x1e', '\x85', '\u2028', '\u2029'])
+                old = (lim - datetime.timedelta(days=3)).strftime(FMT)
+                recent = (lim + datetime.timedelta(days=3)).strftime(FMT)
+                if rng.random() < 0.5:
+                    info = scen.TI % ('/home/u/' + name, old + sep)                 # not a date: the entry is undated
+                    dates = [old + sep]
+                else:
+                    info = '[Trash Info]\nPath=/home/u/%s%sDeletionDate=%s\nDeletionDate=%s\n' % (name, sep, old, recent)
+                    dates = [recent]                                             # the only DeletionDate LINE is the recent one
             elif r < 0.7:
                 bad = rng.choice(scen.BAD_DATES)
                 info = scen.TI % ('/home/u/' + name, bad)
